@@ -3,7 +3,7 @@
    OCaml's own; nat, positive, N, Z stay inductive.  No Extract Constant. *)
 Require Extraction.
 Require Import ExtrOcamlBasic.
-From Flussab Require Import Base Consts Parsed Reader Writer Prog Text Cnf Aiger AigerWrite Btor2 Layout.
+From Flussab Require Import Base Consts Parsed Reader Writer Prog Text Cnf Aiger AigerStream AigerWrite Btor2 Layout.
 Extraction "extracted/model.ml"
   Parsed.err_into Parsed.or_give_up Parsed.optional Parsed.matches Parsed.or_parse
   Parsed.or_always_parse Parsed.and_then Parsed.and_also Parsed.and_do Parsed.map
@@ -15,6 +15,7 @@ Extraction "extracted/model.ml"
   Text.tabs_or_spaces Text.newline Text.next_newline Text.fixed Text.swar
   Cnf.parse_dimacs Cnf.parse_log Cnf.lrs_init
   Aiger.parse_aag Aiger.parse_aig Aiger.whole_file
+  AigerStream.parse_aag_take AigerStream.parse_aig_take
   AigerWrite.write_aag AigerWrite.write_aag_ordered AigerWrite.write_aig_checked
   Layout.write_doc
   Consts.max_code_u8 Consts.max_code_u16 Consts.max_code_u32 Consts.max_code_u64 Consts.max_code_usize
